@@ -186,41 +186,109 @@ type op struct {
 	set    bool
 }
 
-const ctlDir = "internal/controller"
-
-var ops = []op{
-	{goText: "f.fan.Supports", lean: "fan_Supports", args: []string{"Int"}, ret: "Bool"},
-	{goText: "f.fan.GetPwm", lean: "fan_GetPwm", ret: "Int × Option String"},
-	{goText: "f.fan.SetPwm", lean: "fan_SetPwm", args: []string{"Int"}, ret: "Option String"},
-	{goText: "f.fan.GetMinPwm", lean: "fan_GetMinPwm", ret: "Int"},
-	{goText: "f.fan.GetMaxPwm", lean: "fan_GetMaxPwm", ret: "Int"},
-	{goText: "f.fan.GetRpm", lean: "fan_GetRpm", ret: "Int × Option String"},
-	{goText: "f.fan.GetRpmAvg", lean: "fan_GetRpmAvg", ret: "F64"},
-	{goText: "f.fan.SetRpmAvg", lean: "fan_SetRpmAvg", args: []string{"F64"}, ret: "Unit"},
-	{goText: "f.fan.ShouldNeverStop", lean: "fan_ShouldNeverStop", ret: "Bool"},
-	{goText: "f.fan.SetPwmEnabled", lean: "fan_SetPwmEnabled", args: []string{"Int"}, ret: "Option String"},
-	{goText: "f.fan.UpdateFanRpmCurveValue", lean: "fan_UpdateFanRpmCurveValue", args: []string{"Int", "F64"}, ret: "Unit"},
-	{goText: "f.curve.Evaluate", lean: "curve_Evaluate", ret: "Int × Option String"},
-	{goText: "f.controlLoop.Cycle", lean: "controlLoop_Cycle", args: []string{"Int", "Int"}, ret: "Int"},
-	{goText: "f.lastSetPwm", lean: "lastSetPwm", ret: "Option Int", field: true, set: true},
-	{goText: "f.pwmMap", lean: "pwmMap", ret: "Option (List (Int × Int))", field: true},
-	{goText: "f.pwmValuesWithDistinctTarget", lean: "pwmValuesWithDistinctTarget", ret: "Array Int", field: true},
-	{goText: "f.minPwmOffset", lean: "minPwmOffset", ret: "Int", field: true, set: true},
-	{goText: "f.stats.UnexpectedPwmValueCount", lean: "stats_UnexpectedPwmValueCount", ret: "Int", field: true, set: true},
-	{goText: "f.stats.MinPwmOffset", lean: "stats_MinPwmOffset", ret: "Int", field: true, set: true},
-	{goText: "f.stats.IncreasedMinPwmCount", lean: "stats_IncreasedMinPwmCount", ret: "Int", field: true, set: true},
-	{goText: "f.originalPwmValue", lean: "originalPwmValue", ret: "Int", field: true},
-	{goText: "f.originalPwmEnabled", lean: "originalPwmEnabled", ret: "Int", field: true},
-	{goText: "configuration.CurrentConfig.RpmRollingWindowSize", lean: "cfg_RpmRollingWindowSize", ret: "Int", field: true},
+type group struct {
+	name     string // name of the record of operations
+	dir      string
+	recvPath string            // what the receiver variable stands for in operation texts ("f", "fan")
+	handles  []string          // receiver paths that are interface handles (`fan := f.fan` makes `fan` an alias)
+	intTypes []string          // named integer types of the package (conversions are the identity)
+	errs     map[string]string // named error values / error constructors (by text prefix) -> error string
+	ops      []op
+	targets  []target
 }
 
-// named error values of the module
-var errValues = map[string]string{"ErrFanStalledAtMaxPwm": "\"stalled-at-max\""}
+var cur *group
+
+var groups = []*group{
+	{name: "CtlOps", dir: "internal/controller", recvPath: "f", handles: []string{"f.fan", "f.curve", "f.controlLoop"},
+		errs: map[string]string{"ErrFanStalledAtMaxPwm": "stalled-at-max"},
+		ops: []op{
+			{goText: "f.fan.Supports", lean: "fan_Supports", args: []string{"Int"}, ret: "Bool"},
+			{goText: "f.fan.GetPwm", lean: "fan_GetPwm", ret: "Int × Option String"},
+			{goText: "f.fan.SetPwm", lean: "fan_SetPwm", args: []string{"Int"}, ret: "Option String"},
+			{goText: "f.fan.GetMinPwm", lean: "fan_GetMinPwm", ret: "Int"},
+			{goText: "f.fan.GetMaxPwm", lean: "fan_GetMaxPwm", ret: "Int"},
+			{goText: "f.fan.GetRpm", lean: "fan_GetRpm", ret: "Int × Option String"},
+			{goText: "f.fan.GetRpmAvg", lean: "fan_GetRpmAvg", ret: "F64"},
+			{goText: "f.fan.SetRpmAvg", lean: "fan_SetRpmAvg", args: []string{"F64"}, ret: "Unit"},
+			{goText: "f.fan.ShouldNeverStop", lean: "fan_ShouldNeverStop", ret: "Bool"},
+			{goText: "f.fan.SetPwmEnabled", lean: "fan_SetPwmEnabled", args: []string{"Int"}, ret: "Option String"},
+			{goText: "f.fan.UpdateFanRpmCurveValue", lean: "fan_UpdateFanRpmCurveValue", args: []string{"Int", "F64"}, ret: "Unit"},
+			{goText: "f.curve.Evaluate", lean: "curve_Evaluate", ret: "Int × Option String"},
+			{goText: "f.controlLoop.Cycle", lean: "controlLoop_Cycle", args: []string{"Int", "Int"}, ret: "Int"},
+			{goText: "f.lastSetPwm", lean: "lastSetPwm", ret: "Option Int", field: true, set: true},
+			{goText: "f.pwmMap", lean: "pwmMap", ret: "Option (List (Int × Int))", field: true},
+			{goText: "f.pwmValuesWithDistinctTarget", lean: "pwmValuesWithDistinctTarget", ret: "Array Int", field: true},
+			{goText: "f.minPwmOffset", lean: "minPwmOffset", ret: "Int", field: true, set: true},
+			{goText: "f.stats.UnexpectedPwmValueCount", lean: "stats_UnexpectedPwmValueCount", ret: "Int", field: true, set: true},
+			{goText: "f.stats.MinPwmOffset", lean: "stats_MinPwmOffset", ret: "Int", field: true, set: true},
+			{goText: "f.stats.IncreasedMinPwmCount", lean: "stats_IncreasedMinPwmCount", ret: "Int", field: true, set: true},
+			{goText: "f.originalPwmValue", lean: "originalPwmValue", ret: "Int", field: true},
+			{goText: "f.originalPwmEnabled", lean: "originalPwmEnabled", ret: "Int", field: true},
+			{goText: "configuration.CurrentConfig.RpmRollingWindowSize", lean: "cfg_RpmRollingWindowSize", ret: "Int", field: true},
+		},
+		targets: []target{
+			{name: "ctl_getPwm", recv: "DefaultFanController", fn: "getPwm"},
+			{name: "ctl_trySetManualPwm", fn: "trySetManualPwm", alias: map[string]string{"fan": "f.fan"}},
+			{name: "ctl_findClosestDistinctTarget", recv: "DefaultFanController", fn: "findClosestDistinctTarget"},
+			{name: "ctl_applyPwmMapping", recv: "DefaultFanController", fn: "applyPwmMapping"},
+			{name: "ctl_increaseMinPwmOffset", recv: "DefaultFanController", fn: "increaseMinPwmOffset"},
+			{name: "ctl_ensureNoThirdPartyIsMessingWithUs", recv: "DefaultFanController", fn: "ensureNoThirdPartyIsMessingWithUs"},
+			{name: "ctl_calculateTargetPwm", recv: "DefaultFanController", fn: "calculateTargetPwm"},
+			{name: "ctl_setPwm", recv: "DefaultFanController", fn: "setPwm"},
+			{name: "ctl_UpdateFanSpeed", recv: "DefaultFanController", fn: "UpdateFanSpeed"},
+			{name: "ctl_measureRpm", recv: "DefaultFanController", fn: "measureRpm", alias: map[string]string{"fan": "f.fan"}},
+			{name: "ctl_restorePwmEnabled", recv: "DefaultFanController", fn: "restorePwmEnabled"},
+		}},
+	// the hwmon fan object itself: what the controller's `f.fan.*` operations are when the fan is a HwMonFan
+	{name: "HwMonOps", dir: "internal/fans", recvPath: "fan", intTypes: []string{"ControlMode", "FeatureFlag"},
+		errs: map[string]string{"os.ErrInvalid": "invalid", "fmt.Errorf(\"PWM mode stuck": "stuck"},
+		ops: []op{
+			{goText: "util.ReadIntFromFile", lean: "readIntFromFile", args: []string{"String"}, ret: "Int × Option String"},
+			{goText: "util.WriteIntToFile", lean: "writeIntToFile", args: []string{"Int", "String"}, ret: "Option String"},
+			{goText: "os.Stat", lean: "stat", args: []string{"String"}, ret: "Unit × Option String"},
+			{goText: "fan.Config.HwMon.PwmPath", lean: "Config_HwMon_PwmPath", ret: "String", field: true},
+			{goText: "fan.Config.HwMon.PwmEnablePath", lean: "Config_HwMon_PwmEnablePath", ret: "String", field: true},
+			{goText: "fan.Config.HwMon.RpmInputPath", lean: "Config_HwMon_RpmInputPath", ret: "String", field: true},
+			{goText: "fan.Config.NeverStop", lean: "Config_NeverStop", ret: "Bool", field: true},
+			{goText: "fan.Config.MinPwm", lean: "Config_MinPwm", ret: "Option Int", field: true},
+			{goText: "fan.Config.StartPwm", lean: "Config_StartPwm", ret: "Option Int", field: true},
+			{goText: "fan.Config.MaxPwm", lean: "Config_MaxPwm", ret: "Option Int", field: true},
+			{goText: "fan.MinPwm", lean: "MinPwm", ret: "Option Int", field: true, set: true},
+			{goText: "fan.StartPwm", lean: "StartPwm", ret: "Option Int", field: true, set: true},
+			{goText: "fan.MaxPwm", lean: "MaxPwm", ret: "Option Int", field: true, set: true},
+			{goText: "fan.RpmMovingAvg", lean: "RpmMovingAvg", ret: "F64", field: true, set: true},
+			{goText: "fan.Rpm", lean: "Rpm", ret: "Int", field: true, set: true},
+			{goText: "fan.Pwm", lean: "Pwm", ret: "Int", field: true, set: true},
+			{goText: "fan.FanCurveData", lean: "FanCurveData", ret: "Option (List (Int × F64))", field: true, set: true},
+		},
+		targets: []target{
+			{name: "HwMonFan_ShouldNeverStop", recv: "HwMonFan", fn: "ShouldNeverStop"},
+			{name: "HwMonFan_GetMinPwm", recv: "HwMonFan", fn: "GetMinPwm"},
+			{name: "HwMonFan_SetMinPwm", recv: "HwMonFan", fn: "SetMinPwm"},
+			{name: "HwMonFan_GetStartPwm", recv: "HwMonFan", fn: "GetStartPwm"},
+			{name: "HwMonFan_SetStartPwm", recv: "HwMonFan", fn: "SetStartPwm"},
+			{name: "HwMonFan_GetMaxPwm", recv: "HwMonFan", fn: "GetMaxPwm"},
+			{name: "HwMonFan_SetMaxPwm", recv: "HwMonFan", fn: "SetMaxPwm"},
+			{name: "HwMonFan_GetRpm", recv: "HwMonFan", fn: "GetRpm"},
+			{name: "HwMonFan_GetRpmAvg", recv: "HwMonFan", fn: "GetRpmAvg"},
+			{name: "HwMonFan_SetRpmAvg", recv: "HwMonFan", fn: "SetRpmAvg"},
+			{name: "HwMonFan_GetPwm", recv: "HwMonFan", fn: "GetPwm"},
+			{name: "HwMonFan_SetPwm", recv: "HwMonFan", fn: "SetPwm"},
+			{name: "HwMonFan_GetFanRpmCurveData", recv: "HwMonFan", fn: "GetFanRpmCurveData"},
+			{name: "HwMonFan_AttachFanRpmCurveData", recv: "HwMonFan", fn: "AttachFanRpmCurveData"},
+			{name: "HwMonFan_UpdateFanRpmCurveValue", recv: "HwMonFan", fn: "UpdateFanRpmCurveValue"},
+			{name: "HwMonFan_GetPwmEnabled", recv: "HwMonFan", fn: "GetPwmEnabled"},
+			{name: "HwMonFan_IsPwmAuto", recv: "HwMonFan", fn: "IsPwmAuto"},
+			{name: "HwMonFan_SetPwmEnabled", recv: "HwMonFan", fn: "SetPwmEnabled"},
+			{name: "HwMonFan_Supports", recv: "HwMonFan", fn: "Supports"},
+		}},
+}
 
 func findOp(text string) *op {
-	for i := range ops {
-		if ops[i].goText == text {
-			return &ops[i]
+	for i := range cur.ops {
+		if cur.ops[i].goText == text {
+			return &cur.ops[i]
 		}
 	}
 	return nil
@@ -229,20 +297,6 @@ func findOp(text string) *op {
 type target struct {
 	name, recv, fn string
 	alias          map[string]string // parameter / local that stands for a receiver path (e.g. fan -> f.fan), DECLARED
-}
-
-var targets = []target{
-	{name: "ctl_getPwm", recv: "DefaultFanController", fn: "getPwm"},
-	{name: "ctl_trySetManualPwm", fn: "trySetManualPwm", alias: map[string]string{"fan": "f.fan"}},
-	{name: "ctl_findClosestDistinctTarget", recv: "DefaultFanController", fn: "findClosestDistinctTarget"},
-	{name: "ctl_applyPwmMapping", recv: "DefaultFanController", fn: "applyPwmMapping"},
-	{name: "ctl_increaseMinPwmOffset", recv: "DefaultFanController", fn: "increaseMinPwmOffset"},
-	{name: "ctl_ensureNoThirdPartyIsMessingWithUs", recv: "DefaultFanController", fn: "ensureNoThirdPartyIsMessingWithUs"},
-	{name: "ctl_calculateTargetPwm", recv: "DefaultFanController", fn: "calculateTargetPwm"},
-	{name: "ctl_setPwm", recv: "DefaultFanController", fn: "setPwm"},
-	{name: "ctl_UpdateFanSpeed", recv: "DefaultFanController", fn: "UpdateFanSpeed"},
-	{name: "ctl_measureRpm", recv: "DefaultFanController", fn: "measureRpm", alias: map[string]string{"fan": "f.fan"}},
-	{name: "ctl_restorePwmEnabled", recv: "DefaultFanController", fn: "restorePwmEnabled"},
 }
 
 // ---------------------------------------------------------------- translation state
@@ -285,6 +339,15 @@ func mangle(s string) string {
 	return s
 }
 
+func isIntType(name string) bool {
+	for _, n := range cur.intTypes {
+		if n == name {
+			return true
+		}
+	}
+	return false
+}
+
 func (t *tr) goTyp(e ast.Expr) string {
 	if id, ok := e.(*ast.Ident); ok {
 		switch id.Name {
@@ -294,8 +357,21 @@ func (t *tr) goTyp(e ast.Expr) string {
 			return "F64"
 		case "bool":
 			return "Bool"
+		case "string":
+			return "String"
 		case "error":
 			return "Option String"
+		}
+		if isIntType(id.Name) {
+			return "Int"
+		}
+	}
+	if st, ok := e.(*ast.StarExpr); ok {
+		switch str(st.X) {
+		case "int":
+			return "Option Int"
+		case "map[int]float64":
+			return "Option (List (Int × F64))"
 		}
 	}
 	fail("type `%s` is outside the supported subset", str(e))
@@ -311,6 +387,9 @@ func zero(ty string) string {
 	case "Bool":
 		return "false"
 	case "Option String":
+		return "none"
+	}
+	if strings.HasPrefix(ty, "Option ") {
 		return "none"
 	}
 	fail("no zero value for %s", ty)
@@ -351,7 +430,7 @@ func (t *tr) path(e ast.Expr) string {
 			return a
 		}
 		if x.Name == t.recv && t.recv != "" {
-			return "f"
+			return cur.recvPath
 		}
 		return x.Name
 	case *ast.SelectorExpr:
@@ -360,6 +439,25 @@ func (t *tr) path(e ast.Expr) string {
 		return t.path(x.X)
 	}
 	return "?" + str(e)
+}
+
+func isHandle(p string) bool {
+	for _, h := range cur.handles {
+		if h == p {
+			return true
+		}
+	}
+	return false
+}
+
+// error value denoted by an expression text (named error values, error constructors by text prefix)
+func errValue(txt string) (string, bool) {
+	for k, v := range cur.errs {
+		if txt == k || (strings.HasSuffix(k, "stuck") && strings.HasPrefix(txt, k)) || (strings.Contains(k, "(") && strings.HasPrefix(txt, k)) {
+			return v, true
+		}
+	}
+	return "", false
 }
 
 func (t *tr) expr(e ast.Expr) ex {
@@ -387,9 +485,9 @@ func (t *tr) expr(e ast.Expr) ex {
 		if ty, ok := t.vars[e.Name]; ok {
 			return ex{t.names[e.Name], ty}
 		}
-		if v, ok := errValues[e.Name]; ok {
-			t.note(e, "named error value %s is (some %s) (DECLARED by the translator's table)", e.Name, v)
-			return ex{"(some " + v + ")", "Option String"}
+		if v, ok := errValue(e.Name); ok {
+			t.note(e, "named error value %s is (some \"%s\") (DECLARED by the translator's table)", e.Name, v)
+			return ex{"(some \"" + v + "\")", "Option String"}
 		}
 		if v, ty, ok := t.p.constOf(e.Name); ok {
 			t.note(e, "constant %s = %s (from %s)", e.Name, v, t.p.dir)
@@ -400,6 +498,10 @@ func (t *tr) expr(e ast.Expr) ex {
 		p := t.path(e)
 		if o := findOp(p); o != nil && o.field {
 			return ex{"(← ops.get_" + o.lean + ")", o.ret}
+		}
+		if v, ok := errValue(str(e)); ok {
+			t.note(e, "named error value %s is (some \"%s\") (DECLARED by the translator's table)", str(e), v)
+			return ex{"(some \"" + v + "\")", "Option String"}
 		}
 		if id, ok := e.X.(*ast.Ident); ok {
 			if d := importDir(t.file, id.Name); d != "" && !strings.HasPrefix(d, "<ext>") {
@@ -414,12 +516,20 @@ func (t *tr) expr(e ast.Expr) ex {
 		fail("line %d: selector %s (path %s) is neither a field of the record of operations nor a literal constant", line(e), str(e), p)
 	case *ast.StarExpr:
 		in := t.expr(e.X)
-		if in.ty == "Option Int" {
-			return ex{"(← Go.deref " + in.s + ")", "Int"}
+		if strings.HasPrefix(in.ty, "Option ") {
+			inner := strings.TrimPrefix(in.ty, "Option ")
+			inner = strings.TrimSuffix(strings.TrimPrefix(inner, "("), ")")
+			if strings.HasPrefix(in.ty, "Option (") {
+				inner = in.ty[len("Option (") : len(in.ty)-1]
+			}
+			return ex{"(← Go.deref " + in.s + ")", inner}
 		}
 		fail("line %d: dereference %s of type %s", line(e), str(e), in.ty)
 	case *ast.UnaryExpr:
 		if e.Op == token.AND {
+			if str(e.X) == "map[int]float64{}" {
+				return ex{"(some [])", "Option (List (Int × F64))"}
+			}
 			if id, ok := e.X.(*ast.Ident); ok && t.vars[id.Name] == "Int" {
 				t.note(e, "%s: pointer to an int variable becomes `some %s` (value semantics; the variable must not change afterwards)", str(e), id.Name)
 				return ex{"(some " + t.names[id.Name] + ")", "Option Int"}
@@ -446,6 +556,9 @@ func (t *tr) expr(e ast.Expr) ex {
 		is := t.conv(t.expr(e.Index), "Int", e.Index)
 		if x.ty == "Option (List (Int × Int))" {
 			return ex{"(Go.mapGetOpt " + x.s + " " + is + ")", "Int"}
+		}
+		if x.ty == "List (Int × F64)" {
+			return ex{"(Go.mapGet " + x.s + " " + is + ")", "F64"}
 		}
 		fail("line %d: index expression `%s` on %s", line(e), str(e), x.ty)
 	case *ast.BinaryExpr:
@@ -563,7 +676,40 @@ func (t *tr) call(e *ast.CallExpr) []ex {
 		}
 		return t.expr(e.Args[0])
 	}
+	if v, ok := errValue(str(e)); ok {
+		t.note(e, "error value `%s` is (some \"%s\") (DECLARED by the translator's table; the formatted text is not modelled)", strings.SplitN(str(e), ",", 2)[0], v)
+		return []ex{{"(some \"" + v + "\")", "Option String"}}
+	}
 	switch {
+	case isIntType(fun):
+		x := one()
+		if x.ty == "Int" || x.ty == "const" {
+			return []ex{{x.s, "Int"}}
+		}
+		fail("line %d: conversion `%s`", line(e), str(e))
+	case fun == "errors.Is" && importDir(t.file, "errors") == "<ext>errors" && len(e.Args) == 2 && str(e.Args[1]) == "os.ErrPermission":
+		x := t.expr(e.Args[0])
+		if x.ty != "Option String" {
+			fail("line %d: errors.Is on %s", line(e), x.ty)
+		}
+		t.note(e, "errors.Is(_, os.ErrPermission) is (_ = some \"perm\"): permission errors are the error string \"perm\"")
+		return []ex{{"(" + x.s + " = some \"perm\")", "Prop"}}
+	case fun == "len":
+		x := one()
+		if strings.HasPrefix(x.ty, "List (") {
+			return []ex{{"(Go.lenM " + x.s + ")", "Int"}}
+		}
+		fail("line %d: len of %s", line(e), x.ty)
+	case fun == "ComputePwmBoundaries" && cur.dir == "internal/fans" && len(e.Args) == 1 && t.path(e.Args[0]) == cur.recvPath:
+		// fans.ComputePwmBoundaries(fan) is Generated2.fans_ComputePwmBoundaries (transgen2) applied to what the fan's own
+		// GetFanRpmCurveData / GetStartPwm return
+		for _, need := range []string{"HwMonFan_GetFanRpmCurveData", "HwMonFan_GetStartPwm"} {
+			if done[need] == nil {
+				fail("line %d: ComputePwmBoundaries needs %s, whose translation is unsupported", line(e), need)
+			}
+		}
+		t.note(e, "fans.ComputePwmBoundaries(fan) is Generated2.fans_ComputePwmBoundaries (transgen2) on the fan's own GetFanRpmCurveData() (dereferenced: nil panics) and GetStartPwm()")
+		return t.results1("(← Go.liftRes (Generated2.fans_ComputePwmBoundaries indef (← Go.deref (← HwMonFan_GetFanRpmCurveData indef ops)) (← HwMonFan_GetStartPwm indef ops) ()))", "Int × Int")
 	case fun == "float64":
 		x := one()
 		switch x.ty {
@@ -598,8 +744,8 @@ func (t *tr) call(e *ast.CallExpr) []ex {
 	} else if id, ok := e.Fun.(*ast.Ident); ok {
 		name = id.Name
 	}
-	for i := range targets {
-		g := &targets[i]
+	for i := range cur.targets {
+		g := &cur.targets[i]
 		if g.fn != name {
 			continue
 		}
@@ -607,7 +753,7 @@ func (t *tr) call(e *ast.CallExpr) []ex {
 		if d == nil {
 			fail("line %d: call of %s, whose own translation is unsupported (or comes later)", line(e), fun)
 		}
-		fd, _ := load(ctlDir).fn(g.recv, g.fn)
+		fd, _ := load(cur.dir).fn(g.recv, g.fn)
 		var want []string
 		var argv []ast.Expr
 		k := 0
@@ -812,7 +958,7 @@ func (t *tr) stmt(st ast.Stmt) []string {
 				fail("line %d: `%s`", ln, str(st))
 			}
 			// alias of a receiver path: `fan := f.fan`
-			if p := t.path(s.Rhs[0]); p == "f.fan" || p == "f.curve" || p == "f.controlLoop" {
+			if p := t.path(s.Rhs[0]); isHandle(p) {
 				t.alias[id.Name] = p
 				delete(t.vars, id.Name)
 				t.note(st, "`%s`: %s stands for %s from here on", str(st), id.Name, p)
@@ -855,6 +1001,18 @@ func (t *tr) stmt(st ast.Stmt) []string {
 		if o := findOp(p); o != nil && o.field && o.set {
 			return []string{"ops.set_" + o.lean + " " + t.conv(t.expr(rhs), o.ret, st)}
 		}
+		// (*fan.Field)[k] = v   on a pointer-to-map field
+		if ix, ok := s.Lhs[0].(*ast.IndexExpr); ok {
+			if pe, ok := ix.X.(*ast.ParenExpr); ok {
+				if se, ok := pe.X.(*ast.StarExpr); ok {
+					if o := findOp(t.path(se.X)); o != nil && o.field && o.set && o.ret == "Option (List (Int × F64))" {
+						k := t.conv(t.expr(ix.Index), "Int", ix.Index)
+						v := t.conv(t.expr(rhs), "F64", rhs)
+						return []string{"ops.set_" + o.lean + " (some (Go.mapSet (← Go.deref (← ops.get_" + o.lean + ")) " + k + " " + v + "))"}
+					}
+				}
+			}
+		}
 		fail("line %d: assignment to `%s` (path %s)", ln, str(s.Lhs[0]), p)
 	case *ast.IncDecStmt:
 		id, ok := s.X.(*ast.Ident)
@@ -869,6 +1027,8 @@ func (t *tr) stmt(st ast.Stmt) []string {
 		return t.scoped(func() []string { t.level++; defer func() { t.level-- }(); return t.block(s.List) })
 	case *ast.IfStmt:
 		return t.ifStmt(s)
+	case *ast.SwitchStmt:
+		return t.switchStmt(s)
 	}
 	fail("line %d: statement `%s` (%T)", ln, strings.SplitN(str(st), "{", 2)[0], st)
 	return nil
@@ -946,6 +1106,56 @@ func (t *tr) ifStmt(s *ast.IfStmt) []string {
 	return out
 }
 
+func (t *tr) switchStmt(s *ast.SwitchStmt) []string {
+	if s.Init != nil || s.Tag == nil {
+		fail("line %d: switch with init clause / without tag", line(s))
+	}
+	tag := t.expr(s.Tag)
+	if effectful(tag.s) {
+		fail("line %d: switch on an effectful expression", line(s))
+	}
+	type arm struct {
+		cond string
+		body []ast.Stmt
+	}
+	var arms []arm
+	var def []ast.Stmt
+	hasDef := false
+	for _, c := range s.Body.List {
+		cc := c.(*ast.CaseClause)
+		for _, b := range cc.Body {
+			if br, ok := b.(*ast.BranchStmt); ok {
+				fail("line %d: %s inside switch", line(b), br.Tok)
+			}
+		}
+		if cc.List == nil {
+			hasDef, def = true, cc.Body
+			continue
+		}
+		var cs []string
+		for _, v := range cc.List {
+			x := t.expr(v)
+			cs = append(cs, "("+tag.s+" = "+t.conv(x, tag.ty, v)+")")
+		}
+		arms = append(arms, arm{strings.Join(cs, " ∨ "), cc.Body})
+	}
+	var build func(i int) []string
+	build = func(i int) []string {
+		if i == len(arms) {
+			if hasDef {
+				return t.scoped(func() []string { t.level++; defer func() { t.level-- }(); return t.block(def) })
+			}
+			return []string{"pure ()"}
+		}
+		out := []string{"if " + arms[i].cond + " then"}
+		out = append(out, ind(t.scoped(func() []string { t.level++; defer func() { t.level-- }(); return t.block(arms[i].body) }))...)
+		out = append(out, "else")
+		out = append(out, ind(build(i+1))...)
+		return out
+	}
+	return build(0)
+}
+
 // ---------------------------------------------------------------- driver
 type defOut struct {
 	Name        string   `json:"name"`
@@ -957,9 +1167,9 @@ type defOut struct {
 
 func translate(g *target) (out defOut) {
 	out.Name = g.name
-	out.Source = ctlDir + ": " + g.fn
+	out.Source = cur.dir + ": " + g.fn
 	if g.recv != "" {
-		out.Source = ctlDir + ": (*" + g.recv + ")." + g.fn
+		out.Source = cur.dir + ": (*" + g.recv + ")." + g.fn
 	}
 	t := &tr{tg: g, vars: map[string]string{}, names: map[string]string{}, alias: map[string]string{}, used: map[string]int{}, scopeOf: map[string]int{}}
 	defer func() {
@@ -972,7 +1182,7 @@ func translate(g *target) (out defOut) {
 			out.Unsupported = string(u)
 		}
 	}()
-	t.p = load(ctlDir)
+	t.p = load(cur.dir)
 	fd, f := t.p.fn(g.recv, g.fn)
 	if fd == nil {
 		fail("function not found")
@@ -1021,7 +1231,7 @@ func translate(g *target) (out defOut) {
 	} else if len(t.results) > 1 {
 		rt = "(" + strings.Join(t.results, " × ") + ")"
 	}
-	hdr := "def " + g.name + " {σ : Type} (indef : Int) (ops : CtlOps σ)"
+	hdr := "def " + g.name + " {σ : Type} (indef : Int) (ops : " + cur.name + " σ)"
 	for _, p := range params {
 		hdr += " (" + p[0] + " : " + p[1] + ")"
 	}
@@ -1032,9 +1242,9 @@ func translate(g *target) (out defOut) {
 
 func opsStructure() string {
 	var b strings.Builder
-	b.WriteString("/-- everything the translated controller code does to the outside (generated from the translator's table `ops`) -/\n")
-	b.WriteString("structure CtlOps (σ : Type) where\n")
-	for _, o := range ops {
+	b.WriteString("/-- everything the translated methods of " + cur.dir + " do to the outside (generated from the translator's table) -/\n")
+	b.WriteString("structure " + cur.name + " (σ : Type) where\n")
+	for _, o := range cur.ops {
 		ty := "GoM σ " + wrapTy(o.ret)
 		for i := len(o.args) - 1; i >= 0; i-- {
 			ty = o.args[i] + " → " + ty
@@ -1064,12 +1274,17 @@ func main() {
 		os.Exit(2)
 	}
 	repo = filepath.Clean(os.Args[1])
-	var defs []defOut
-	for i := range targets {
-		defs = append(defs, translate(&targets[i]))
+	var out []map[string]any
+	for _, g := range groups {
+		cur = g
+		var defs []defOut
+		for i := range g.targets {
+			defs = append(defs, translate(&g.targets[i]))
+		}
+		out = append(out, map[string]any{"name": g.name, "defs": defs, "ops": opsStructure()})
 	}
 	enc := json.NewEncoder(os.Stdout)
 	enc.SetIndent("", " ")
 	enc.SetEscapeHTML(false)
-	enc.Encode(map[string]any{"defs": defs, "ops": opsStructure()})
+	enc.Encode(map[string]any{"groups": out})
 }
